@@ -5,7 +5,7 @@ set -u
 tier=${1:-quick}; shift || true
 WT=/tmp/wt_seed; RP=/tmp/repo_seed
 if [ ! -d $WT ]; then git -C /verif worktree add -f --detach $WT HEAD >/dev/null 2>&1; fi
-git -C $WT checkout -q --detach $(git -C /verif rev-parse HEAD)
+git -C $WT checkout -q -f --detach $(git -C /verif rev-parse HEAD)
 rm -rf $RP; git clone -q /repo $RP
 cd $WT
 export VERIF_REPO=$RP VERIF_SEED=${VERIF_SEED:-1}
